@@ -336,8 +336,11 @@ CLAIMED = {
             "Trusted: Lean kernel; hand-written models tied by the correspondence run; irreducibility of f is a hypothesis of the inverse "
             "theorems (the driver's check z^(2^m) = z implies it for prime m, not proved in Lean); field polynomial, curve coefficients, "
             "generator, order, cofactor read from the running library and sanity-checked by the driver (deg f, reduction exponents, srz^2 = z, "
-            "generator on curve, r*G = O, Hasse interval, Koblitz flag); class C (compared on the presented lines only): fb_inv_binar / exgcd / "
-            "almos / bruch / ctaia / lower, fb_sqrn_low, fb_rdc_basic, fb_mul_dig, fb_slv_quick's table walk, fb_exp_*, fb2_*, eb_mul_halve on "
+            "generator on curve, r*G = O, Hasse interval, Koblitz flag); fb_inv_sim is class A (Montgomery's trick as coded, every list length, zero reported: fb_inv_sim_correct); fb_inv_binar / almos / "
+            "exgcd are value-level models of the C loops executed on every line with PARTIAL correctness proved (zero reported; whatever the "
+            "model returns is reduced, satisfies a*c = 1 and equals the specification's inverse; termination within the fuel is not proved: "
+            "fb_inv_binar_partial / fb_inv_almos_partial / fb_inv_exgcd_partial / fb_inv_euclid_value); fb_inv_bruch / fb_inv_ctaia are executed "
+            "models without a theorem; class C (compared on the presented lines only): fb_inv_lower, fb_sqrn_low, fb_rdc_basic, fb_mul_dig, fb_slv_quick's table walk, fb_exp_*, fb2_*, eb_mul_halve on "
             "the cofactor-4 curve, eb_mul_fix_combd, the Koblitz eb_mul_sim_*, eb_mul_dig, the x-only ladder formulas of eb_mul_lodah, "
             "eb_pck / eb_upk / eb_read_bin / eb_write_bin; points presented to lodah / halve lie in the subgroup generated by G.",
             "tools/props/c16.py, findings/C16-*.md"),
